@@ -130,6 +130,26 @@ int main() {
             } catch (std::exception& e) {
                 std::cout << "o " << line << " => throw\n";
             }
+        } else if (cmd == "sz2") {
+            // two-list constructor: the lists need not cover all modes of the ket
+            unsigned nm, nup, ndn; is >> nm >> nup;
+            std::vector<ParticleIndex> ups(nup);
+            for (unsigned k = 0; k < nup; ++k) is >> ups[k];
+            is >> ndn;
+            std::vector<ParticleIndex> dns(ndn);
+            for (unsigned k = 0; k < ndn; ++k) is >> dns[k];
+            unsigned long ket; is >> ket;
+            try {
+                OperatorPresets::Sz S(ups, dns);
+                FockState k(nm, ket);
+                Operator generic(S);
+                std::map<FockState, MelemType> r = S.actRight(k);
+                std::cout << "o " << line << " => ok " << hx::melem(S.getMatrixElement(k, k)) << " "
+                          << hx::melem(generic.getMatrixElement(k, k)) << " " << r.size() << " " << r.begin()->first.to_ulong()
+                          << " " << hx::melem(r.begin()->second) << "\n";
+            } catch (std::exception& e) {
+                std::cout << "o " << line << " => throw\n";
+            }
         } else {
             std::cout << "o " << line << " => BADCMD\n";
         }
